@@ -11,7 +11,8 @@ theorem kd_tree_walk (b : Nat) (mk iv : Bytes) : ∀ (h j : Nat),
   | succ h ih =>
     intro j
     unfold Gen.kd.derive_emv2000_tree_sk.walk treeWalk pyDiv
-    simp only [ih, kd_tree_derive, bind, Except.bind, pure, Except.pure]
+    try simp only [bind_pure]      -- `do let v ← e; pure v` is `e` (single-exit rewrites)
+    simp only [ih, kd_tree_derive, bind, Except.bind, pure, Except.pure, except_match_eta]
     by_cases hb : b = 0
     · simp [hb, throw, throwThe, MonadExceptOf.throw]
     · simp only [hb, if_false]
